@@ -1010,6 +1010,76 @@ func isSigned(t types.Type) bool {
 	return ok && b.Info()&types.IsInteger != 0 && b.Info()&types.IsUnsigned == 0
 }
 
+// signExtendsUnsigned: fn is `return intN(r.h(W))` where h(width) returns int64(U << k) >> k with k = 64 - 8*width and
+// U the call r.g(width) of the unsigned reader that ReadUintW (named unsignedName) returns a conversion of, with the
+// same W.
+func signExtendsUnsigned(r *core.Run, fn *ssa.Function, width int64, unsignedName string) bool {
+	if len(fn.Blocks) != 1 {
+		return false
+	}
+	ret, ok := lastInstr(fn.Blocks[0]).(*ssa.Return)
+	if !ok || len(ret.Results) != 1 {
+		return false
+	}
+	hc, ok := stripConv(ret.Results[0]).(*ssa.Call)
+	if !ok || hc.Call.IsInvoke() || len(hc.Call.Args) != 2 {
+		return false
+	}
+	h := hc.Call.StaticCallee()
+	if k, isK := hc.Call.Args[1].(*ssa.Const); !isK || !ssaIntConst(k) || k.Int64() != width || h == nil || recvName(h) != recvName(fn) || len(h.Blocks) != 1 || len(h.Params) != 2 {
+		return false
+	}
+	hret, ok := lastInstr(h.Blocks[0]).(*ssa.Return)
+	if !ok || len(hret.Results) != 1 || !isSigned(hret.Results[0].Type()) {
+		return false
+	}
+	// int64(U << k) >> k
+	shr, ok := hret.Results[0].(*ssa.BinOp)
+	if !ok || shr.Op != token.SHR {
+		return false
+	}
+	cv, ok := shr.X.(*ssa.Convert)
+	if !ok || !isSigned(cv.Type()) {
+		return false
+	}
+	if b, isB := cv.Type().Underlying().(*types.Basic); !isB || b.Kind() != types.Int64 {
+		return false
+	}
+	shl, ok := cv.X.(*ssa.BinOp)
+	if !ok || shl.Op != token.SHL || stripConv(shl.Y) != stripConv(shr.Y) {
+		return false
+	}
+	if b, isB := shl.X.Type().Underlying().(*types.Basic); !isB || b.Kind() != types.Uint64 {
+		return false
+	}
+	// k = 64 - 8*width
+	kl := linOf(shl.Y)
+	wname := h.Params[1].Name()
+	if kl.C != 64 || len(kl.T) != 1 || kl.T[wname] != -8 {
+		return false
+	}
+	// U = r.g(width), the reader ReadUintW converts with the same W
+	uc, ok := stripConv(shl.X).(*ssa.Call)
+	if !ok || uc.Call.IsInvoke() || len(uc.Call.Args) != 2 || uc.Call.Args[1] != ssa.Value(h.Params[1]) {
+		return false
+	}
+	g := uc.Call.StaticCallee()
+	uf := r.Prog.SSAFunc("", recvName(fn), unsignedName)
+	if g == nil || uf == nil || len(uf.Blocks) != 1 {
+		return false
+	}
+	uret, ok := lastInstr(uf.Blocks[0]).(*ssa.Return)
+	if !ok || len(uret.Results) != 1 {
+		return false
+	}
+	ucall, ok := stripConv(uret.Results[0]).(*ssa.Call)
+	if !ok || ucall.Call.StaticCallee() != g || len(ucall.Call.Args) != 2 {
+		return false
+	}
+	k2, isK2 := ucall.Call.Args[1].(*ssa.Const)
+	return isK2 && ssaIntConst(k2) && k2.Int64() == width
+}
+
 func runLayout(r *core.Run) {
 	n := layoutReaders(r)
 	w24 := 0
@@ -1039,6 +1109,14 @@ func runLayout(r *core.Run) {
 						ok = true
 					}
 				}
+			}
+		}
+		if !ok {
+			// intN(r.readInt(W)) with readInt(width) = int64(r.readUint(width) << (64-8*width)) >> (64-8*width): the general
+			// sign extension from bit 8*width-1, over the same unsigned reader ReadUintW itself converts
+			if widthBytes, okW := map[string]int64{"8": 1, "16": 2, "24": 3, "32": 4, "64": 8}[w]; okW && signExtendsUnsigned(r, fn, widthBytes, "ReadUint"+w) {
+				r.OK("ReadInt"+w+" sign-extends the unsigned read of the same width", fn.Pos(), "through a width-generic helper")
+				continue
 			}
 		}
 		if w == "24" {
